@@ -16,6 +16,9 @@
      subst ts vals             request text obtained by replacing the k-th wildcard
                                token by the k-th value (missing values = empty)
      catch_followed ts         some TCatch token is followed by a further token
+     wild_spec off ts          the wildcards of a key whose tokens are ts, as parseWildcard must
+                               report them: (name, end, catchAll) with end = offset (from off) of the
+                               byte after the wildcard, or -1 when it closes the key
    No proofs in this file. *)
 From FoxBase Require Import Bytes.
 Import List ListNotations.
@@ -96,4 +99,19 @@ Fixpoint catch_followed (ts : list token) : bool :=
   | [] => false
   | TCatch _ :: r => match r with [] => false | _ => true end || catch_followed r
   | _ :: r => catch_followed r
+  end.
+
+Definition wtuple := (bytes * Z * bool)%type.
+
+Fixpoint wild_spec (off : nat) (ts : list token) : list wtuple :=
+  match ts with
+  | [] => []
+  | t :: r =>
+    let off' := off + length (render_token t) in
+    let e := match r with [] => (-1)%Z | _ => Z.of_nat off' end in
+    match t with
+    | TStatic _ => wild_spec off' r
+    | TParam n => (n, e, false) :: wild_spec off' r
+    | TCatch n => (n, e, true) :: wild_spec off' r
+    end
   end.
